@@ -17,10 +17,10 @@ import (
 // both ways: a positive control must flip the named obligations to violated, a
 // negative control (behaviour-preserving edit) must leave the check silent.
 type Control struct {
-	Name   string `json:"name"`
-	Kind   string `json:"kind"` // positive | negative
-	Why    string `json:"why,omitempty"`
-	Edits  []Edit `json:"edits"`
+	Name   string   `json:"name"`
+	Kind   string   `json:"kind"` // positive | negative
+	Why    string   `json:"why,omitempty"`
+	Edits  []Edit   `json:"edits"`
 	Expect []string `json:"expect,omitempty"` // obligation keys (prefix match) that must be violated
 }
 
@@ -61,10 +61,10 @@ func (e Edit) apply(text string) string {
 
 // ControlResult is recorded in the evidence.
 type ControlResult struct {
-	Name    string `json:"name"`
-	Kind    string `json:"kind"`
-	Status  string `json:"status"` // ok | skipped | FAILED
-	Detail  string `json:"detail,omitempty"`
+	Name   string `json:"name"`
+	Kind   string `json:"kind"`
+	Status string `json:"status"` // ok | skipped | FAILED
+	Detail string `json:"detail,omitempty"`
 }
 
 func loadControls(verif, prop string) ([]Control, error) {
